@@ -277,13 +277,15 @@ impl StakeKeeper {
         validator_commission: Decimal,
         stake: Uint128,
     ) -> Decimal {
-        // calculate time since last update (in seconds)
-        let time_diff = current_time.minus_seconds(since.seconds()).seconds();
+        // calculate time since last update (in seconds, exact to the nanosecond: whole seconds
+        // measured from the truncated start time count up to a second too much per update)
+        let time_diff = Decimal::from_ratio(
+            current_time.nanos().saturating_sub(since.nanos()),
+            1_000_000_000u128,
+        );
 
         // using decimal here to reduce rounding error when calling this function a lot
-        let reward = Decimal::from_ratio(stake, 1u128)
-            * interest_rate
-            * Decimal::from_ratio(time_diff, 1u128)
+        let reward = Decimal::from_ratio(stake, 1u128) * interest_rate * time_diff
             / Decimal::from_ratio(YEAR, 1u128);
         let commission = reward * validator_commission;
 
